@@ -190,12 +190,38 @@ impl JwkStorage for StrongholdStorage {
       key_id.to_string().as_bytes().to_vec(),
     );
     let procedure: Ed25519Sign = Ed25519Sign {
-      private_key: location,
+      private_key: location.clone(),
       msg: data.to_vec(),
     };
 
     let stronghold = self.get_stronghold().await;
     let client = get_client(&stronghold)?;
+
+    // Ed25519 and BBS+ secrets live in the same vault and nothing records which is which: ensure that `public_key`
+    // is the Ed25519 public key of the record before signing with it (as `sign_bbs` does for BBS+ keys).
+    let public_key_procedure = iota_stronghold::procedures::PublicKey {
+      ty: ProceduresKeyType::Ed25519,
+      private_key: location,
+    };
+    let stored_public_key: Vec<u8> = client
+      .execute_procedure(StrongholdProcedure::PublicKey(public_key_procedure))
+      .map_err(|err| {
+        KeyStorageError::new(KeyStorageErrorKind::Unspecified)
+          .with_custom_message("stronghold public key procedure failed")
+          .with_source(err)
+      })?
+      .into();
+    let x: Vec<u8> = public_key
+      .try_okp_params()
+      .ok()
+      .and_then(|params| jwu::decode_b64(params.x.as_str()).ok())
+      .unwrap_or_default();
+    if x != stored_public_key {
+      return Err(
+        KeyStorageError::new(KeyStorageErrorKind::Unspecified)
+          .with_custom_message("`public_key` is not the public key of key with id `key_id`"),
+      );
+    }
 
     let signature: [u8; 64] = client.execute_procedure(procedure).map_err(|err| {
       KeyStorageError::new(KeyStorageErrorKind::Unspecified)
